@@ -240,6 +240,10 @@ def run(ctx):
     roles = common.role_fields(ctx, lib, want=common.FMT_ROLES + ("escape", "surrogate"))
     vws(ctx, prog, lib, roles)
     deciders = grp1(ctx, lib, roles)
+    # PRC-3 (shared with C02): the outer group around a top-level alternation does not depend on the verbose setting (or any other presentation setting)
+    from .C02 import prc3
+    ctx.rule("PRC-3", "RegExp::fmt wraps the expression in an outer group iff it is an alternation, for every valuation of the presentation settings incl. verbose")
+    prc3(ctx, lib, roles)
     counting.rules(ctx)
     counting.cnt1(ctx, lib)
     counting.cnt2(ctx, lib)
